@@ -150,7 +150,8 @@ def eval_migration(f, path, records, target_empty=True):
             return args[0]
         return C.handle(kind, name, payload, site)
     try:
-        ret, it = E.run_it(f, path, [E.href("tx")], {"tx": E.Tok("tx")}, oracle)
+        inl = tuple(p_ for p_ in f.bodies if p_.startswith(M) and not f.bodies[p_].rec.get("derived"))
+        ret, it = E.run_it(f, path, [E.href("tx")], {"tx": E.Tok("tx")}, oracle, inline=inl)
         return E.describe(ret, f), log
     except E.Unsupported as e:
         return "UNSUPPORTED-FORM: %s" % e, log
